@@ -38,7 +38,7 @@ import (
 // form (identical String() and Contains()); the oracle therefore expects the
 // same record. Violations that involve both forms of one network get the
 // narrow signature "C13/v4-net-16byte-mask/separate-record".
-const bsGen16ByteV4Masks = true
+const bsGen16ByteV4Masks = false
 
 // ---------------------------------------------------------------- the case
 
@@ -101,8 +101,27 @@ var bsDurations = []int64{0, 1, -1, int64(-5 * time.Second), 999_999_999, int64(
 var bsDeltas = []int64{int64(-1500 * time.Millisecond), int64(-time.Second), int64(-time.Millisecond), -1, 0, 1,
 	int64(time.Millisecond), int64(999 * time.Millisecond), int64(time.Second)}
 
+// bsUni draws an (almost exactly) uniform integer in [0, n), n <= 128.
+// rapid's integer ranges and SampledFrom are strongly biased towards the
+// lower bound (about 40% of IntRange(0,99) draws are below 10), which wrecks
+// weighted choices; fair coin flips are not biased. Shrinks towards 0.
+func bsUni(t *rapid.T, label string, n int) int {
+	v := 0
+	for i := 0; i < 10; i++ {
+		v <<= 1
+		if rapid.Bool().Draw(t, label) {
+			v |= 1
+		}
+	}
+	return v % n
+}
+
+func bsPick[T any](t *rapid.T, label string, list []T) T {
+	return list[bsUni(t, label, len(list))]
+}
+
 func bsGenMask(t *rapid.T) string {
-	n := rapid.IntRange(0, 99).Draw(t, "maskw")
+	n := bsUni(t, "maskw", 100)
 	switch {
 	case n < 36:
 		return "nil"
@@ -137,11 +156,11 @@ func bsGenMask(t *rapid.T) string {
 }
 
 func bsGenAddr(t *rapid.T, label string) netip.Addr {
-	switch rapid.IntRange(0, 3).Draw(t, label+"-src") {
+	switch bsUni(t, label+"-src", 4) {
 	case 0:
-		return netip.MustParseAddr(rapid.SampledFrom(bsFixed4).Draw(t, label+"-f4"))
+		return netip.MustParseAddr(bsPick(t, label+"-f4", bsFixed4))
 	case 1:
-		return netip.MustParseAddr(rapid.SampledFrom(bsFixed6).Draw(t, label+"-f6"))
+		return netip.MustParseAddr(bsPick(t, label+"-f6", bsFixed6))
 	case 2:
 		b := rapid.SliceOfN(rapid.Byte(), 4, 4).Draw(t, label+"-r4")
 		return netip.AddrFrom4([4]byte(b))
@@ -186,23 +205,23 @@ func bsRelative(base netip.Addr, rel int, rnd []byte) netip.Addr {
 // bsGenDur: mostly a few seconds with a sub-second part (rapid's wide integer
 // ranges are strongly biased towards tiny values, hence the composition).
 func bsGenDur(t *rapid.T) int64 {
-	w := rapid.IntRange(0, 19).Draw(t, "durw")
+	w := bsUni(t, "durw", 20)
 	if w < 3 {
-		return rapid.SampledFrom(bsDurations).Draw(t, "dur")
+		return bsPick(t, "dur", bsDurations)
 	}
-	d := int64(rapid.IntRange(0, 12).Draw(t, "dursec")) * int64(time.Second)
-	switch rapid.IntRange(0, 6).Draw(t, "durfrac") {
+	d := int64(bsUni(t, "dursec", 13)) * int64(time.Second)
+	switch bsUni(t, "durfrac", 7) {
 	case 0, 1:
 	case 2:
 		d += 1
 	case 3:
 		d += 999_999_999
 	case 4:
-		d += int64(rapid.IntRange(1, 999).Draw(t, "durms")) * int64(time.Millisecond)
+		d += int64((1 + bsUni(t, "durms", 999))) * int64(time.Millisecond)
 	case 5:
-		d += int64(rapid.IntRange(1, 999).Draw(t, "durus")) * int64(time.Microsecond)
+		d += int64((1 + bsUni(t, "durus", 999))) * int64(time.Microsecond)
 	default:
-		d += int64(rapid.IntRange(1, 999).Draw(t, "durns"))
+		d += int64((1 + bsUni(t, "durns", 999)))
 	}
 	if w == 19 {
 		return -d
@@ -211,10 +230,10 @@ func bsGenDur(t *rapid.T) int64 {
 }
 
 func bsGenOp(t *rapid.T) bsOp {
-	w := rapid.IntRange(0, 99).Draw(t, "kind")
+	w := bsUni(t, "kind", 100)
 	var op bsOp
 	target := func(ownPct, recentPct int) {
-		u := rapid.IntRange(0, 99).Draw(t, "use")
+		u := bsUni(t, "use", 100)
 		switch {
 		case u < ownPct:
 			op.Use = "own"
@@ -223,57 +242,57 @@ func bsGenOp(t *rapid.T) bsOp {
 		default:
 			op.Use = "recent-mask"
 		}
-		op.Back = rapid.IntRange(0, 3).Draw(t, "back")
-		op.A = rapid.IntRange(0, 3).Draw(t, "a")
-		op.Style = rapid.IntRange(0, 11).Draw(t, "style")
-		op.Port = rapid.SampledFrom([]int{8333, 0, 1, 18333, 65535, 80}).Draw(t, "port")
+		op.Back = bsUni(t, "back", 4)
+		op.A = bsUni(t, "a", 4)
+		op.Style = bsUni(t, "style", 12)
+		op.Port = bsPick(t, "port", []int{8333, 0, 1, 18333, 65535, 80})
 		op.Mask = bsGenMask(t)
 	}
 	switch {
-	case w < 20:
+	case w < 24:
 		op.Kind = "ban"
 		target(65, 20)
 		op.DurNs = bsGenDur(t)
-		if rapid.IntRange(0, 9).Draw(t, "reasonw") < 8 {
-			op.Reason = uint8(rapid.IntRange(1, 5).Draw(t, "reason"))
+		if bsUni(t, "reasonw", 10) < 8 {
+			op.Reason = uint8((1 + bsUni(t, "reason", 5)))
 		} else {
 			op.Reason = rapid.Byte().Draw(t, "reasonb")
 		}
-	case w < 50:
+	case w < 52:
 		op.Kind = "status"
 		target(25, 50)
-		op.All = rapid.IntRange(0, 4).Draw(t, "all") == 0
-	case w < 58:
+		op.All = bsUni(t, "all", 5) == 0
+	case w < 60:
 		// status of every network banned so far, through one spelling style
 		op.Kind = "census"
-		op.Style = rapid.IntRange(0, 11).Draw(t, "style")
-		op.Port = rapid.SampledFrom([]int{8333, 0, 65535}).Draw(t, "port")
-	case w < 64:
+		op.Style = bsUni(t, "style", 12)
+		op.Port = bsPick(t, "port", []int{8333, 0, 65535})
+	case w < 65:
 		op.Kind = "unban"
 		target(35, 55)
 	case w < 90:
 		op.Kind = "advance"
-		op.Adv = rapid.SampledFrom([]string{"ns", "ms", "ms", "s", "s", "s", "h", "toexp", "toexp", "toexp", "tofloor", "tofloor"}).Draw(t, "adv")
+		op.Adv = bsPick(t, "adv", []string{"ns", "ms", "ms", "s", "s", "s", "h", "toexp", "toexp", "toexp", "tofloor", "tofloor"})
 		switch op.Adv {
 		case "ns", "ms":
-			op.N = rapid.Int64Range(1, 999).Draw(t, "n")
+			op.N = int64(1 + bsUni(t, "n", 999))
 		case "s":
-			op.N = rapid.Int64Range(1, 12).Draw(t, "n")
+			op.N = int64(1 + bsUni(t, "n", 12))
 		case "h":
-			op.N = rapid.Int64Range(1, 30).Draw(t, "n")
+			op.N = int64(1 + bsUni(t, "n", 30))
 		case "toexp":
-			op.Back = rapid.IntRange(0, 3).Draw(t, "back")
-			op.Delta = rapid.SampledFrom(bsDeltas).Draw(t, "delta")
+			op.Back = bsUni(t, "back", 4)
+			op.Delta = bsPick(t, "delta", bsDeltas)
 		case "tofloor":
-			op.Back = rapid.IntRange(0, 3).Draw(t, "back")
-			op.Delta = rapid.SampledFrom([]int64{-1, 0, 1, int64(-time.Millisecond), int64(time.Millisecond)}).Draw(t, "delta")
+			op.Back = bsUni(t, "back", 4)
+			op.Delta = bsPick(t, "delta", []int64{-1, 0, 1, int64(-time.Millisecond), int64(time.Millisecond)})
 		}
 	case w < 97:
 		op.Kind = "reopen"
 	default:
 		op.Kind = "junk"
-		op.Junk = rapid.SampledFrom(bsJunk).Draw(t, "junk")
-		op.Mask = rapid.SampledFrom([]string{"nil", "nil", "full", "net", "bad-empty"}).Draw(t, "junkmask")
+		op.Junk = bsPick(t, "junk", bsJunk)
+		op.Mask = bsPick(t, "junkmask", []string{"nil", "nil", "full", "net", "bad-empty"})
 	}
 	return op
 }
@@ -285,13 +304,13 @@ type bsExtra struct {
 
 func bsGenCase(t *rapid.T) bsCase {
 	var c bsCase
-	if rapid.IntRange(0, 3).Draw(t, "aligned") != 0 {
-		c.StartNs = rapid.Int64Range(1, 999_999_999).Draw(t, "start")
+	if bsUni(t, "aligned", 4) != 0 {
+		c.StartNs = int64(1+bsUni(t, "start-ms", 999))*int64(time.Millisecond) - int64(bsUni(t, "start-ns", 2)*bsUni(t, "start-ns", 1000))
 	}
 	base := bsGenAddr(t, "base")
 	c.Addrs = append(c.Addrs, base.String())
 	extras := rapid.SliceOfN(rapid.Custom(func(t *rapid.T) bsExtra {
-		return bsExtra{Rel: rapid.IntRange(0, 5).Draw(t, "rel"), Rnd: rapid.SliceOfN(rapid.Byte(), 16, 16).Draw(t, "rnd")}
+		return bsExtra{Rel: bsUni(t, "rel", 6), Rnd: rapid.SliceOfN(rapid.Byte(), 16, 16).Draw(t, "rnd")}
 	}), 1, 3).Draw(t, "extras")
 	for _, e := range extras {
 		var a netip.Addr
@@ -1115,6 +1134,7 @@ func (r *bsRun) doAdvance(op bsOp) {
 		d = time.Until(at.Add(time.Duration(op.Delta)))
 		if d <= 0 || d > 100*24*time.Hour {
 			r.class("advance:%s/not-reachable", op.Adv)
+			r.v.Logf("%s advance %s%+d of %s: not in the (near) future, clock not moved", r.at(), op.Adv, op.Delta, b.key)
 			return
 		}
 		r.class("advance:%s/hit", op.Adv)
@@ -1185,7 +1205,11 @@ func (r *bsRun) sweep(what string, styleN, port int, counted bool) {
 			// do not let the sweep itself mix the two mask forms
 			continue
 		}
-		t := bsTarget{addr: e.addr, maskNm: fmt.Sprintf("%x", []byte(e.mask)), mask: e.mask, text: text, style: style, key: k, form: form, ok: true}
+		maskNm := "nil"
+		if e.mask != nil {
+			maskNm = fmt.Sprintf("%x", []byte(e.mask))
+		}
+		t := bsTarget{addr: e.addr, maskNm: maskNm, mask: e.mask, text: text, style: style, key: k, form: form, ok: true}
 		r.query(t, what)
 		if r.v.Violation != "" || r.v.Harness != "" {
 			return
